@@ -7,6 +7,7 @@
 # pairs where the structure diverges as residual obligations. If every residual pair is proved equal by the solver,
 # the original terms are equal (congruence: equal arguments give equal results).  A failed residual says nothing
 # about the original pair; the caller then falls back to the full query.
+import os
 import random
 import time
 from . import terms as T
@@ -428,10 +429,31 @@ def simulate_difference(pairs, pc, seed=0):
             names[args] = w
         else:
             stack.extend(T.node_deps(j))
+    # the same pair of terms under another dispatcher arm (path conditions differing only in CPU-feature bits the terms do not
+    # mention) evaluates to the same values: do not repeat the (expensive, whole-DAG) evaluations
+    if 'cpu' not in T.support([x for p in pairs for x in p])[0]:
+        skey = ('sim', tuple(pairs), tuple((c, v) for c, v in pc if T.support([c])[0] != {'cpu'}))
+        if skey in _PC_MODEL_CACHE:
+            return None
+    else:
+        skey = None
+    r_ = _simulate_difference(pairs, pc, names, seed)
+    if r_ is None and skey is not None:
+        _PC_MODEL_CACHE[skey] = True
+    return r_
+
+
+def _simulate_difference(pairs, pc, names, seed):
     rng = random.Random(seed)
     cands = corner_assignments(names, rng, nrand=2)
     # cheap order: random vectors first (a wrong core differs on almost every input), then the carry corners
     cands = [cands[8], cands[9]] + cands[:2] + cands[16:17]
+    if os.environ.get('VERIF_DEBUG'):
+        print('DEBUG simulate_difference: %d nodes' % T.support([x for p in pairs for x in p])[1], flush=True)
+    if T.support([x for p in pairs for x in p])[1] > 1500:
+        # a whole-DAG evaluation of a multi-block hash costs seconds: one random vector (a wrong core differs almost everywhere)
+        # and one carry corner; boundary slips in such DAGs are found through refuted small-cone lemmas instead
+        cands = [cands[0], cands[2]]
     repair = None       # an assignment of the path-condition variables that satisfies the path condition (from the solver, once)
     for asg in cands:
         ev = T.Evaluator(asg)
